@@ -1,6 +1,7 @@
 # Registry: per property, which harness, which generator, which theorems file, what counts as a non-trivial case.
 import json, os, sys
 import classes as G
+import paths as GP
 import runner
 from framework import *
 
@@ -125,9 +126,52 @@ def route_prefixed(case):
     t = case.split()
     return 'classes' if t[0] in ('SUB',) else route_eq(case)
 
+def gen_C11(rng, tier):
+    out = []
+    if tier == 'quick':
+        out += GP.all_graph_cases(rng, 'D', 2) + GP.all_graph_cases(rng, 'D', 3, pairs_per_graph=3) + GP.all_graph_cases(rng, 'U', 3)
+        out += GP.all_graph_cases(rng, 'U', 4, pairs_per_graph=2, sample=300) + GP.random_cases(rng, 250, nmax=8, oor_p=0.0)
+    else:
+        out += GP.all_graph_cases(rng, 'D', 3) + GP.all_graph_cases(rng, 'D', 4, pairs_per_graph=1, sample=20000) + GP.all_graph_cases(rng, 'U', 4, pairs_per_graph=4)
+        out += GP.all_graph_cases(rng, 'U', 5, pairs_per_graph=2, sample=5000) + GP.random_cases(rng, 5000, nmax=12, oor_p=0.0)
+    return out + GP.family_cases(rng, tier)
+def gen_C12(rng, tier):
+    if tier == 'quick':
+        return GP.dj_small_exhaustive(rng, 3, 2) + GP.dj_random(rng, 1200, nmax=7, oor_p=0.0) + GP.dj_families(rng, tier)
+    return GP.dj_small_exhaustive(rng, 3, 8) + GP.dj_small_exhaustive(rng, 4, 1) + GP.dj_random(rng, 15000, nmax=30, oor_p=0.0) + GP.dj_families(rng, tier)
+def gen_C19(rng, tier):
+    k = 400 if tier == 'quick' else 6000
+    return GP.family_cases(rng, tier) + GP.dj_families(rng, tier) + GP.random_cases(rng, k, nmax=10, oor_p=0.0) + GP.dj_random(rng, k, nmax=10, oor_p=0.0) \
+        + (GP.all_graph_cases(rng, 'D', 3, pairs_per_graph=1) if tier == 'quick' else GP.all_graph_cases(rng, 'D', 4, pairs_per_graph=1, sample=20000))
+def seg_C11(case, k): return [0, 1] if k in (0, 1) else None
+def seg_C12(case, k): return [0, 1]
+def seg_C19(case, k):
+    if case.startswith('DJ'): return [2]
+    return [2] if k in (0, 1) else 'skip'
+def _path_nontrivial(c, I):
+    return ';' in c
+PATH_RULE = ('graphs given as insertion histories: %s; for each (source, destination): findVertexPredecessors, findAllVertexPredecessors, findGeodesics, findAllGeodesics, '
+             'findGeodesicsFromVertex, findAllGeodesicsFromVertex on a counting graph type; compared with the Coq model and with the brute-force spec (hop minima by iterated successor '
+             'sets, all walks of minimal length); implementation-chosen values (the single parent, the single path) are VALIDATED against the relation, not fixed; '
+             'non-trivial = graph with >= 2 insertions')
+
 PROPS = {
+ 'C11': dict(harness='paths', gen=gen_C11, shrink=None, segments=seg_C11, nontrivial=_path_nontrivial, model_name='PathsModel (BFS, parent walk, stack loop)',
+             histogram=lambda cases: {'directed': sum(1 for c in cases if c.startswith('PATH D')), 'undirected': sum(1 for c in cases if c.startswith('PATH U'))},
+             rule=PATH_RULE % 'every directed graph on <=3 vertices and every undirected graph on <=3 (sampled on 4) with self-loops x (all) source/destination pairs, layered and grid families, random graphs to 8 vertices with cycles, several components and forced duplicates (thorough: directed <=4, undirected <=5, random to 12)'),
+ 'C12': dict(harness='paths', gen=gen_C12, shrink=None, segments=seg_C12, nontrivial=_path_nontrivial, model_name='Dj.run (choice-driven Dijkstra) following the implementation pop sequence',
+             histogram=lambda cases: {'directed': sum(1 for c in cases if c.startswith('DJ DW')), 'undirected': sum(1 for c in cases if c.startswith('DJ UW'))},
+             rule='weighted graphs with exactly representable weights from {0, 1, 2, 5}: every loop-free directed topology on 3 vertices x random weight assignments x all sources (as '
+                  'DirectedWeightedGraph or UndirectedWeightedGraph), random graphs to 7 vertices (thorough: 30), zero-weight cycles, ties, layered and grid families; '
+                  'findGeodesicsDijkstra on a counting graph type; distances compared exactly with the model (which replays the implementation pop sequence and checks every pop is a '
+                  'minimum of the worklist) and with Bellman-Ford on the spec side; the predecessor vector is validated against dist[v] = dist[p] + w(p,v); non-trivial = >= 2 edges'),
+ 'C19': dict(harness='paths', gen=gen_C19, shrink=None, segments=seg_C19, nontrivial=_path_nontrivial, model_name='scan counters of the path-search models',
+             histogram=lambda cases: {'bfs_cases': sum(1 for c in cases if c.startswith('PATH')), 'dijkstra_cases': sum(1 for c in cases if c.startswith('DJ'))},
+             rule='the number of getOutNeighbours calls made by findVertexPredecessors, findAllVertexPredecessors and findGeodesicsDijkstra on a counting graph type, compared with the '
+                  'scan counters of the Coq models and with the bounds V, V+E, V+E+1 (E = total length of all neighbour lists): layered graphs of width 2-3 with up to 8 (thorough 12) '
+                  'layers and grids (exponentially many shortest paths), zero-weight cycles, random graphs, all digraphs on 3 (thorough: sampled on 4) vertices; non-trivial = >= 2 insertions'),
  'C10': dict(harness='classes', gen=gen_C10, shrink=None, histogram=lambda cases: {'subset_sizes': {str(k): sum(1 for c in cases if len(c.split('|')[-1].split()) == k) for k in range(0, 7)}},
-             nontrivial=lambda c, I: any(len(l.split()) > 4 and l.split()[4] not in ('0', '|') for l in I[1:2]), model_name='TopologyModel.subgraph / subgraph_remap',
+             nontrivial=lambda c, I: any(len(l.split()) > 2 and l.split()[2] not in ('0', '|') for l in I[1:2]), model_name='TopologyModel.subgraph / subgraph_remap',
              rule='graphs built by seeded histories (directed and undirected, unlabelled / int / std::string labels, self-loops, sizes 0-5) x ALL 2^n vertex subsets for n <= 4 '
                   '(n = 5: empty, full and 10 random subsets); rarely a subset containing an out-of-range vertex (std::out_of_range expected). The harness reports the iteration order '
                   'of its unordered_set; getSubgraph (all observers) and getSubgraphWithRemap (all observers + the returned map) are compared with the Coq model given that order, and '
